@@ -268,6 +268,66 @@ def nested_list_cases(draw):
     return {'family': 'json', 'a': a, 'b': b, 'ds': ds, 'le': le}
 
 
+# -- lists of records: compound edits in the last cell of the list's alignment, many cost ties -----------------------------
+
+RECORD_KEYS = ['alpha_key', 'beta_key', 'gamma_key']
+
+
+@st.composite
+def record_cases(draw):
+    val = st.text(alphabet='defgh', min_size=1, max_size=7)
+    rec = st.dictionaries(st.sampled_from(RECORD_KEYS), val, min_size=1, max_size=3)
+    a = draw(st.lists(rec, min_size=1, max_size=3))
+    b = [dict(r) for r in a]
+    for _ in range(draw(st.integers(1, 4))):
+        op = draw(st.integers(0, 4))
+        if op == 0 or not b:
+            b.insert(draw(st.integers(0, len(b))), draw(rec))
+        elif op == 1 and len(b) > 1:
+            del b[draw(st.integers(0, len(b) - 1))]
+        elif op == 2:
+            r = b[draw(st.integers(0, len(b) - 1))]
+            for k in list(r):
+                if draw(st.booleans()):
+                    r[k] = draw(val)
+        elif op == 3:
+            b[-1] = draw(rec)
+        else:
+            r = b[draw(st.integers(0, len(b) - 1))]
+            k = draw(st.sampled_from(RECORD_KEYS))
+            if k in r and len(r) > 1:
+                del r[k]
+            else:
+                r[k] = draw(val)
+    ds, le = draw(options)
+    return {'family': 'json', 'a': a, 'b': b, 'ds': ds if draw(st.booleans()) else 'auto', 'le': 'on'}
+
+
+@st.composite
+def record_variant_cases(draw):
+    """two lists whose records are variants of one or two base records, mixed with tiny scalars: many alignments of nearly
+    equal cost, compound edits in the last cell"""
+    val = st.text(alphabet='defgh', min_size=1, max_size=7)
+    bases = draw(st.lists(st.dictionaries(st.sampled_from(RECORD_KEYS), val, min_size=2, max_size=3), min_size=1, max_size=2))
+
+    def variant():
+        r = dict(draw(st.sampled_from(bases)))
+        for k in list(r):
+            if draw(st.integers(0, 2)) == 0:
+                r[k] = draw(val)
+        if draw(st.integers(0, 4)) == 0 and len(r) > 1:
+            del r[draw(st.sampled_from(sorted(r)))]
+        return r
+
+    def lst():
+        out = []
+        for _ in range(draw(st.integers(1, 3))):
+            out.append(draw(st.sampled_from([1, 'x', True])) if draw(st.integers(0, 2)) == 0 else variant())
+        out.append(variant())
+        return out
+    return {'family': 'json', 'a': lst(), 'b': lst(), 'ds': 'auto', 'le': 'on'}
+
+
 # -- multisets: JSON lists are read as multisets ---------------------------------------------------------------------
 
 @st.composite
